@@ -288,11 +288,15 @@ func loadKnownFindings() []knownFinding {
 	return out
 }
 
+// at most this many counterexamples per (harness, assertion) are written out and listed
+const maxReportedPerAssertion = 5
+
 func (r *report) finish(wall time.Duration, eng *sx.Engine, writeEvidence bool) int {
 	known := loadKnownFindings()
 	inconclusive := false
 	violations := 0
 	knownHits := map[string]bool{}
+	perLabel := map[string]int{}
 	var replayPaths []string
 	for _, run := range r.runs {
 		for _, d := range run.disagree {
@@ -321,6 +325,10 @@ func (r *report) finish(wall time.Duration, eng *sx.Engine, writeEvidence bool) 
 				continue
 			}
 			violations++
+			perLabel[c.Harness+"/"+c.Label]++
+			if perLabel[c.Harness+"/"+c.Label] > maxReportedPerAssertion {
+				continue // counted, not written out again
+			}
 			p := filepath.Join(verifDir, "replays", r.prop, fmt.Sprintf("%s-%s-%d.json", c.Harness, sanitize(c.Label), violations))
 			writeJSON(p, c)
 			replayPaths = append(replayPaths, p)
@@ -342,6 +350,11 @@ func (r *report) finish(wall time.Duration, eng *sx.Engine, writeEvidence bool) 
 	}
 	if writeEvidence {
 		r.writeEvidence(wall, eng, violations, code)
+	}
+	for k, n := range perLabel {
+		if n > maxReportedPerAssertion {
+			fmt.Printf("  (%d further counterexamples for %s not listed)\n", n-maxReportedPerAssertion, k)
+		}
 	}
 	if violations > 0 {
 		fmt.Printf("VIOLATION property=%s replay=%s\n", r.prop, replayPaths[0])
@@ -507,7 +520,7 @@ func (r *report) writeEvidence(wall time.Duration, eng *sx.Engine, violations, c
 			"infeasible_branches_refuted":   refuted,
 			"harnesses":                     harnessInfo,
 			"package_init_failures":         eng.InitFailures(),
-			"encoding_source":               "go/ssa built from /repo working tree at run time (" + fmt.Sprint(len(eng.Pkgs)) + " packages)",
+			"encoding_source":               "go/ssa built from " + repoDir + " working tree at run time (" + fmt.Sprint(len(eng.Pkgs)) + " packages)",
 		},
 	}
 	writeJSON(filepath.Join(verifDir, "evidence", r.prop+".json"), ev)
